@@ -1208,3 +1208,175 @@ Theorem LtEq_panics : forall h vl vw ls ws n,
   int_slice h vl ls -> int_slice h vw ws -> disjoint_vals vl vw -> length ls <> length ws ->
   exists fuel, run go_funs fuel "LtEq" [vl; vw; VInt n] h = OPanic.
 Proof. intros. apply run_to_fuel. eapply LtEq_panic_run; eassumption. Qed.
+
+(* ------------------------------------------------------------------ Eq *)
+
+Definition list_val (l : list val) : val := match l with [] => VNil | _ => VList l end.
+
+Definition eq_tail : stmt :=
+  SSeq (SSet "res" ENil)
+  (SSeq (SIf (EBin Gt (EFld (EVar "ge") 2) (EInt 0)) (SAppendV "res" (EVar "res") (EVar "ge")) SSkip)
+  (SSeq (SIf (EBin Gt (EFld (EVar "le") 2) (EInt 0)) (SAppendV "res" (EVar "res") (EVar "le")) SSkip)
+  (SReturn (EVar "res")))).
+
+Lemma Eq_tail_run : forall v1 v2 v3 v4 v5 f1 f2 d1 g1 g2 d2 h6,
+  runs go_funs eq_tail
+    (St [("lits", v1); ("weights", v2); ("n", v3); ("lits2", v4); ("weights2", v5);
+         ("ge", VStruct [f1; f2; VInt d1]); ("le", VStruct [g1; g2; VInt d2])] h6)
+    (OReturn (list_val ((if 0 <? d1 then [VStruct [f1; f2; VInt d1]] else []) ++
+                        (if 0 <? d2 then [VStruct [g1; g2; VInt d2]] else []))) h6).
+Proof.
+  intros. apply (runs_exec go_funs 6); [|discriminate]. unfold eq_tail. gocbn.
+  destruct (0 <? d1); gocbn; unfold set_local; gocbn; destruct (0 <? d2); reflexivity.
+Qed.
+
+Lemma arr_of_alloc2_old : forall (h : heap) X Y a, (a < length h)%nat ->
+  arr_of ((h ++ [X]) ++ [Y]) a = arr_of h a.
+Proof.
+  intros h X Y a H. rewrite arr_of_alloc_old by (rewrite length_alloc; lia). apply arr_of_alloc_old. exact H.
+Qed.
+
+Lemma arr_of_alloc2_fst : forall (h : heap) X Y, arr_of ((h ++ [X]) ++ [Y]) (length h) = X.
+Proof.
+  intros h X Y. rewrite arr_of_alloc_old by (rewrite length_alloc; lia). apply arr_of_alloc_new.
+Qed.
+
+Lemma arr_of_alloc2_snd : forall (h : heap) X Y, arr_of ((h ++ [X]) ++ [Y]) (S (length h)) = Y.
+Proof. intros h X Y. rewrite <- (length_alloc h X). apply arr_of_alloc_new. Qed.
+
+Lemma write_at_0_all : forall ys M, length ys = length M -> write_at O ys M = ys.
+Proof.
+  intros ys M H. rewrite <- (app_nil_r M). rewrite write_at_0_app by exact H. apply app_nil_r.
+Qed.
+
+Lemma eq_heap_copy1 : forall h s ls X, slice_ok h s -> sl_read h s = ls ->
+  heap_write ((h ++ [repeat 0 (length ls)]) ++ [X]) (length h) O
+             (firstn (length ls) (sl_read ((h ++ [repeat 0 (length ls)]) ++ [X]) s))
+  = (h ++ [ls]) ++ [X].
+Proof.
+  intros h s ls X Hok Hrd. pose proof Hok as (Ha & _).
+  rewrite sl_read_alloc_old by (rewrite length_alloc; lia). rewrite sl_read_alloc_old by exact Ha.
+  rewrite Hrd, firstn_all.
+  rewrite heap_write_alloc_old by (rewrite length_alloc; lia). rewrite heap_write_alloc_new.
+  rewrite write_at_0_all by (rewrite repeat_length; reflexivity). reflexivity.
+Qed.
+
+Lemma eq_heap_copy2 : forall h s ls ws, slice_ok h s -> sl_read h s = ws ->
+  heap_write ((h ++ [ls]) ++ [repeat 0 (length ws)]) (S (length h)) O
+             (firstn (length ws) (sl_read ((h ++ [ls]) ++ [repeat 0 (length ws)]) s))
+  = (h ++ [ls]) ++ [ws].
+Proof.
+  intros h s ls ws Hok Hrd. pose proof Hok as (Ha & _).
+  rewrite sl_read_alloc_old by (rewrite length_alloc; lia). rewrite sl_read_alloc_old by exact Ha.
+  rewrite Hrd, firstn_all. rewrite <- (length_alloc h ls). rewrite heap_write_alloc_new.
+  rewrite write_at_0_all by (rewrite repeat_length; reflexivity). reflexivity.
+Qed.
+
+Lemma int_slice_fresh : forall (h : heap) a l, arr_of h a = l -> (a < length h)%nat ->
+  int_slice h (VSl (Slice a O (length l) (length l))) l.
+Proof.
+  intros h a l Ha Hlt. right. eexists. split; [reflexivity|]. split.
+  - unfold slice_ok. cbn [s_arr s_off s_len s_cap]. rewrite Ha. repeat split; try lia.
+  - unfold sl_read. cbn [s_arr s_off s_len]. rewrite Ha. cbn [skipn]. apply firstn_all.
+Qed.
+
+Lemma src_Eq_shape : src_Eq = FDef ["lits"; "weights"; "n"]
+    (SSeq (SMake "lits2" (ELen (EVar "lits")))
+      (SSeq (SMake "weights2" (ELen (EVar "weights")))
+      (SSeq (SCopy (EVar "lits2") (EVar "lits"))
+      (SSeq (SCopy (EVar "weights2") (EVar "weights"))
+      (SSeq (SCall "ge" "GtEq" [(EVar "lits2"); (EVar "weights2"); (EVar "n")])
+      (SSeq (SCall "le" "LtEq" [(EVar "lits"); (EVar "weights"); (EVar "n")])
+      eq_tail)))))).
+Proof. reflexivity. Qed.
+
+(* the two fresh headers of Eq *)
+Definition eq_l2 (h : heap) (k : nat) : val := VSl (Slice (length h) O k k).
+Definition eq_w2 (h : heap) (k : nat) : val := VSl (Slice (S (length h)) O k k).
+
+Lemma Eq_total : forall h sl sw ls ws n,
+  int_slice h (VSl sl) ls -> int_slice h (VSl sw) ws -> s_arr sl <> s_arr sw ->
+  length ls = length ws -> ws <> [] ->
+  exists v h',
+    run_to go_funs "Eq" [VSl sl; VSl sw; VInt n] h (OReturn v h') /\
+    gopbs_of_rval (readback h' v) = Some (eq_ ls ws n) /\
+    length h' = S (S (length h)) /\
+    (forall a, (a < length h)%nat -> a <> s_arr sl -> a <> s_arr sw -> arr_of h' a = arr_of h a) /\
+    sl_read h' sl = g_lits (lt_eq ls ws n) ++
+                    repeat (last (map Z.opp ls) 0) (length ls - length (g_lits (lt_eq ls ws n))) /\
+    (exists wl, g_ws (lt_eq ls ws n) = Some wl /\
+                sl_read h' sw = wl ++ repeat (last ws 0) (length ws - length wl)) /\
+    v = list_val ((if 0 <? g_atleast (gt_eq ls ws n)
+                   then [pb_val (eq_l2 h (length ls)) (eq_w2 h (length ws)) (gt_eq ls ws n)] else []) ++
+                  (if 0 <? g_atleast (lt_eq ls ws n)
+                   then [pb_val (VSl sl) (VSl sw) (lt_eq ls ws n)] else [])).
+Proof.
+  intros h sl sw ls ws n Hl Hw Hdis Hlen Hws.
+  pose proof (int_slice_sl _ _ _ Hl) as (Hokl & Hrdl). pose proof (int_slice_sl _ _ _ Hw) as (Hokw & Hrdw).
+  pose proof (length_sl_read h sl Hokl) as Hll. rewrite Hrdl in Hll.
+  pose proof (length_sl_read h sw Hokw) as Hlw. rewrite Hrdw in Hlw.
+  pose proof Hokl as (Hal & _). pose proof Hokw as (Haw & _).
+  set (h4 := (h ++ [ls]) ++ [ws]).
+  assert (Hh4 : length h4 = S (S (length h))) by (unfold h4; rewrite !length_alloc; reflexivity).
+  (* GtEq on the copies *)
+  assert (Hl4 : int_slice h4 (eq_l2 h (length ls)) ls).
+  { apply int_slice_fresh; [apply arr_of_alloc2_fst|lia]. }
+  assert (Hw4 : int_slice h4 (eq_w2 h (length ws)) ws).
+  { apply int_slice_fresh; [apply arr_of_alloc2_snd|lia]. }
+  destruct (GtEq_total h4 (eq_l2 h (length ls)) (eq_w2 h (length ws)) ls ws n Hl4 Hw4)
+    as (vge & h5 & Hrun5 & Hg5 & Hh5 & Hfr5 & Hlens5 & _ & _ & Hv5).
+  { cbn [disjoint_vals eq_l2 eq_w2 s_arr]. lia. }
+  { right. split; assumption. }
+  (* LtEq on the originals *)
+  assert (Hold5 : forall a, (a < length h)%nat -> arr_of h5 a = arr_of h a).
+  { intros a Ha. rewrite Hfr5.
+    - apply arr_of_alloc2_old. exact Ha.
+    - intros s Hs. inversion Hs. cbn [s_arr]. lia.
+    - intros s Hs. inversion Hs. cbn [s_arr]. lia. }
+  assert (Hok5 : forall s, slice_ok h s -> slice_ok h5 s).
+  { intros s Hs. apply (slice_ok_lens h4 h5 s Hh5 Hlens5). unfold h4. apply slice_ok_alloc, slice_ok_alloc. exact Hs. }
+  assert (Hl5 : int_slice h5 (VSl sl) ls).
+  { right. exists sl. split; [reflexivity|]. split; [apply Hok5; exact Hokl|].
+    rewrite <- Hrdl. apply sl_read_ext. apply Hold5. exact Hal. }
+  assert (Hw5 : int_slice h5 (VSl sw) ws).
+  { right. exists sw. split; [reflexivity|]. split; [apply Hok5; exact Hokw|].
+    rewrite <- Hrdw. apply sl_read_ext. apply Hold5. exact Haw. }
+  destruct (LtEq_total h5 (VSl sl) (VSl sw) ls ws n Hl5 Hw5 Hdis Hlen (or_intror Hws))
+    as (vle & h6 & Hrun6 & Hg6 & Hh6 & Hfr6 & Hlens6 & Hcl6 & Hcw6 & Hv6).
+  assert (Hfr6' : forall a, a <> s_arr sl -> a <> s_arr sw -> arr_of h6 a = arr_of h5 a).
+  { intros a H1 H2. apply Hfr6; intros s Hs; inversion Hs; subst s; assumption. }
+  exists (list_val ((if 0 <? g_atleast (gt_eq ls ws n) then [vge] else []) ++
+                    (if 0 <? g_atleast (lt_eq ls ws n) then [vle] else []))), h6.
+  split; [|split; [|split; [|split; [|split; [|split]]]]].
+  - eapply run_to_intro; [reflexivity|reflexivity|]. rewrite src_Eq_shape. cbn [f_body].
+    eapply runs_seq.
+    { apply runs_make with (k := Z.of_nat (s_len sl)); [reflexivity|lia]. }
+    cbn [locals hp upd String.eqb Ascii.eqb Bool.eqb andb]. rewrite Nat2Z.id.
+    eapply runs_seq.
+    { apply runs_make with (k := Z.of_nat (s_len sw)); [reflexivity|lia]. }
+    cbn [locals hp upd String.eqb Ascii.eqb Bool.eqb andb]. rewrite Nat2Z.id, length_alloc.
+    rewrite <- Hll, <- Hlw.
+    eapply runs_seq.
+    { apply (runs_exec go_funs 1); [|discriminate]. gocbn. rewrite (eq_heap_copy1 h sl ls _ Hokl Hrdl). reflexivity. }
+    eapply runs_seq.
+    { apply (runs_exec go_funs 1); [|discriminate]. gocbn. rewrite (eq_heap_copy2 h sw ls ws Hokw Hrdw). reflexivity. }
+    eapply runs_seq.
+    { eapply runs_call_run; [reflexivity|]. cbn [hp]. exact Hrun5. }
+    eapply runs_seq.
+    { eapply runs_call_run; [reflexivity|]. cbn [hp]. exact Hrun6. }
+    cbn [locals hp upd String.eqb Ascii.eqb Bool.eqb andb].
+    rewrite Hv5, Hv6. unfold pb_val. apply Eq_tail_run.
+  - (* the value read back *)
+    assert (Hge6 : readback h6 vge = readback h5 vge).
+    { rewrite Hv5. unfold pb_val, eq_l2, eq_w2. cbn [relen readback map s_arr s_off s_cap].
+      rewrite (sl_read_ext h5 h6), (sl_read_ext h5 h6 (Slice (S (length h)) _ _ _)); [reflexivity| |];
+        cbn [s_arr]; apply Hfr6'; lia. }
+    unfold eq_.
+    destruct (0 <? g_atleast (gt_eq ls ws n)); destruct (0 <? g_atleast (lt_eq ls ws n));
+      cbn [app list_val readback map gopbs_of_rval gopbs_of_rvals]; rewrite ?Hge6, ?Hg5, ?Hg6; reflexivity.
+  - congruence.
+  - intros a Ha H1 H2. rewrite Hfr6' by assumption. apply Hold5. exact Ha.
+  - apply (Hcl6 sl eq_refl).
+  - apply (Hcw6 sw eq_refl).
+  - rewrite Hv5, Hv6. reflexivity.
+Qed.
